@@ -14,7 +14,34 @@ use proptest::prelude::*;
 use serde::{Deserialize, Serialize};
 use std::sync::{Arc, Mutex};
 
-type Frames = Arc<Mutex<(usize, Vec<Vec<f64>>)>>;
+/// What the probe has seen. Frames are sorted, as they arrive, by their LLR scale (mean magnitude of
+/// the non-zero LLRs) into the Eb/N0 point whose expected scale is nearest on a logarithmic axis (the
+/// points of one run differ by a factor of four or more in scale); at most `cap` frames are kept per
+/// point, all are counted.
+#[derive(Debug, Default)]
+pub struct ProbeState {
+    /// expected mean |LLR| per requested point
+    expected: Vec<f64>,
+    cap: usize,
+    kept: Vec<Vec<Vec<f64>>>,
+    seen: Vec<u64>,
+    /// frames whose scale is more than a factor two away from every expected scale (kept: first 8)
+    stray: Vec<Vec<f64>>,
+    stray_seen: u64,
+}
+
+type Frames = Arc<Mutex<ProbeState>>;
+
+fn llr_scale(llrs: &[f64]) -> f64 {
+    let (mut s, mut c) = (0.0, 0usize);
+    for x in llrs {
+        if *x != 0.0 && x.is_finite() {
+            s += x.abs();
+            c += 1;
+        }
+    }
+    if c == 0 { 0.0 } else { s / c as f64 }
+}
 
 #[derive(Clone, Debug)]
 struct ProbeFactory(Frames);
@@ -31,9 +58,28 @@ struct ProbeDecoder(Frames);
 impl LdpcDecoder for ProbeDecoder {
     fn decode(&mut self, llrs: &[f64], max: usize) -> Result<DecoderOutput, DecoderOutput> {
         {
+            let sc = llr_scale(llrs);
             let mut g = self.0.lock().unwrap();
-            if g.1.len() < g.0 {
-                g.1.push(llrs.to_vec());
+            let mut best: Option<(usize, f64)> = None;
+            for (i, e) in g.expected.iter().enumerate() {
+                let d = if sc > 0.0 { (sc / e).ln().abs() } else { f64::INFINITY };
+                if best.is_none_or(|b| d < b.1) {
+                    best = Some((i, d));
+                }
+            }
+            match best {
+                Some((i, d)) if d <= std::f64::consts::LN_2 => {
+                    g.seen[i] += 1;
+                    if g.kept[i].len() < g.cap {
+                        g.kept[i].push(llrs.to_vec());
+                    }
+                }
+                _ => {
+                    g.stray_seen += 1;
+                    if g.stray.len() < 8 {
+                        g.stray.push(llrs.to_vec());
+                    }
+                }
             }
         }
         // hard decision with the first bit flipped: exactly one (systematic) bit error per frame
@@ -125,6 +171,10 @@ pub struct Case {
     pub psk8: bool,
     pub sigma_target: Fx,
     pub via_builder: bool,
+    /// Eb/N0 points of the run, in order: entry k stands for an expected noise sigma of
+    /// sigma_target / 2^k (empty = the single point k = 0)
+    #[serde(default)]
+    pub points: Vec<u8>,
 }
 
 /// systematic H: [H0 | staircase] or [H0 | unit lower triangular], every row of H0 non-empty
@@ -189,9 +239,11 @@ pub fn strategy(_t: Tier) -> BoxedStrategy<Case> {
                 proptest::collection::vec(prop::bool::weighted(0.3), r * r),
                 proptest::collection::vec(any::<u16>(), r),
                 (0..3u8, any::<u16>(), 0.0f64..1.0, any::<bool>()),
+                // one Eb/N0 point, or two or three in any order (sigma halves from one level to the next)
+                prop_oneof![4 => Just(vec![0u8]), 1 => Just(vec![0u8, 1]), 1 => Just(vec![1u8, 0]), 1 => Just(vec![2u8, 0]), 1 => Just(vec![0u8, 2, 1]), 1 => Just(vec![1u8, 2, 0])],
             )
         })
-        .prop_map(|((n, r, bs, staircase, psk8), pattern, h0, tail, fix, (ikind, ipick, sfrac, via_builder))| {
+        .prop_map(|((n, r, bs, staircase, psk8), pattern, h0, tail, fix, (ikind, ipick, sfrac, via_builder), points)| {
             let kept = pattern.as_ref().map_or(n, |v| bs * v.iter().filter(|&&b| b).count());
             let divisors: Vec<usize> = (1..=kept).filter(|d| kept % d == 0).collect();
             let d = divisors[idx(ipick, divisors.len())] as isize;
@@ -204,7 +256,7 @@ pub fn strategy(_t: Tier) -> BoxedStrategy<Case> {
             // probability < 1e-14 per sample (BPSK: Q(1/0.13) = 7e-15; 8PSK: 2 Q(sin(pi/8)/0.048) = 2e-15),
             // so that even the thorough tier (2.5e8 samples) cannot plausibly see a channel error
             let sigma_target = if psk8 { 0.025 + 0.023 * sfrac } else { 0.08 + 0.05 * sfrac };
-            Case { h: systematic_h(r, n, &h0, &tail, staircase, &fix), pattern, interleaver, psk8, sigma_target: Fx(sigma_target), via_builder }
+            Case { h: systematic_h(r, n, &h0, &tail, staircase, &fix), pattern, interleaver, psk8, sigma_target: Fx(sigma_target), via_builder, points }
         })
         .prop_flat_map(|c| (shuffled(Just(c.h.clone())), Just(c)))
         .prop_map(|(h, mut c)| {
@@ -221,6 +273,21 @@ fn zcheck(name: &str, val: f64, expect: f64, sd: f64, p: &mut Probe, ctx: &str) 
     Ok(())
 }
 
+/// expected mean |LLR| of a frame at noise level sigma (own exact LLR functions on noiseless points)
+fn expected_scale(psk8: bool, sigma: f64) -> f64 {
+    if psk8 {
+        let mut s = 0.0;
+        for t in TABLE.iter() {
+            for b in 0..3 {
+                s += super::c14::own_psk8_llr(num_complex::Complex::new(t.1.cos(), t.1.sin()), sigma, b).abs();
+            }
+        }
+        s / 24.0
+    } else {
+        2.0 / (sigma * sigma)
+    }
+}
+
 pub fn check(c: &Case, p: &mut Probe) -> Check {
     let h = c.h.to_sparse();
     let (r, n) = (c.h.rows, c.h.cols);
@@ -228,39 +295,57 @@ pub fn check(c: &Case, p: &mut Probe) -> Check {
     let kept = c.pattern.as_ref().map_or(n, |v| n / v.len() * v.iter().filter(|&&b| b).count());
     let bps = if c.psk8 { 3.0 } else { 1.0 };
     let rate = k as f64 / kept as f64;
-    let ebn0 = 0.5 / (c.sigma_target.0 * c.sigma_target.0 * rate * bps);
-    let ebn0_db = (10.0 * ebn0.log10()) as f32;
-    // expected per-dimension sigma: rate counted after puncturing, bits per symbol of the modulation
-    let sigma_e = (0.5 / (rate * bps * 10f64.powf(0.1 * f64::from(ebn0_db)))).sqrt();
+    let levels: Vec<u8> = if c.points.is_empty() { vec![0] } else { c.points.clone() };
+    let npts = levels.len();
+    // per point: the Eb/N0 handed to the engine (f32 dB) and the per-dimension sigma it must produce
+    // (rate counted after puncturing, bits per symbol of the modulation)
+    let mut ebn0s_db: Vec<f32> = Vec::new();
+    let mut sigmas: Vec<f64> = Vec::new();
+    for &lv in &levels {
+        let st = c.sigma_target.0 / f64::from(1u32 << lv);
+        let ebn0 = 0.5 / (st * st * rate * bps);
+        let db = (10.0 * ebn0.log10()) as f32;
+        ebn0s_db.push(db);
+        sigmas.push((0.5 / (rate * bps * 10f64.powf(0.1 * f64::from(db)))).sqrt());
+    }
     let symbols_per_frame = if c.psk8 { kept / 3 } else { kept };
-    let nerr = (6000usize.div_ceil(symbols_per_frame)).max(20) as u64;
-    let frames: Frames = Arc::new(Mutex::new((3 * nerr as usize + 64, Vec::new())));
+    let want_samples = if npts == 1 { 6000usize } else { 4000 };
+    let nerr = (want_samples.div_ceil(symbols_per_frame)).max(20) as u64;
+    let state = ProbeState { expected: sigmas.iter().map(|&s| expected_scale(c.psk8, s)).collect(), cap: 3 * nerr as usize + 64, kept: vec![Vec::new(); npts], seen: vec![0; npts], stray: Vec::new(), stray_seen: 0 };
+    let frames: Frames = Arc::new(Mutex::new(state));
     let probe = ProbeFactory(frames.clone());
-    let ctx = format!("[{}x{} pattern {:?} interleaver {:?} {} sigma {:.4} Eb/N0 {ebn0_db} dB]", r, n, c.pattern, c.interleaver, if c.psk8 { "8PSK" } else { "BPSK" }, sigma_e);
+    let ctx0 = format!("[{}x{} pattern {:?} interleaver {:?} {} Eb/N0 points {ebn0s_db:?} dB, expected sigmas {sigmas:.4?}]", r, n, c.pattern, c.interleaver, if c.psk8 { "8PSK" } else { "BPSK" });
     let modulation = if c.psk8 { Modulation::Psk8 } else { Modulation::Bpsk };
     let run = || -> Result<(Vec<ldpc_toolbox::simulation::ber::Statistics>, (usize, usize, usize, f64)), String> {
         if c.via_builder {
-            let b = BerTestBuilder { h: h.clone(), decoder_implementation: probe.clone(), modulation, puncturing_pattern: c.pattern.as_deref(), interleaving_columns: c.interleaver, max_frame_errors: nerr, max_iterations: 5, ebn0s_db: &[ebn0_db], reporter: None, bch_max_errors: 0 }.build().map_err(|e| e.to_string())?;
+            let b = BerTestBuilder { h: h.clone(), decoder_implementation: probe.clone(), modulation, puncturing_pattern: c.pattern.as_deref(), interleaving_columns: c.interleaver, max_frame_errors: nerr, max_iterations: 5, ebn0s_db: &ebn0s_db, reporter: None, bch_max_errors: 0 }.build().map_err(|e| e.to_string())?;
             let sizes = (b.k(), b.n_cw(), b.n(), b.rate());
             Ok((b.run().map_err(|e| e.to_string())?, sizes))
         } else if c.psk8 {
             use ldpc_toolbox::simulation::factory::Ber;
-            let b = BerTest::<Psk8, _>::new(h.clone(), probe.clone(), c.pattern.as_deref(), c.interleaver, nerr, 5, &[ebn0_db], None, 0).map_err(|e| e.to_string())?;
+            let b = BerTest::<Psk8, _>::new(h.clone(), probe.clone(), c.pattern.as_deref(), c.interleaver, nerr, 5, &ebn0s_db, None, 0).map_err(|e| e.to_string())?;
             let sizes = (b.k(), b.n_cw(), b.n(), b.rate());
             Ok((b.run().map_err(|e| e.to_string())?, sizes))
         } else {
             use ldpc_toolbox::simulation::factory::Ber;
-            let b = BerTest::<Bpsk, _>::new(h.clone(), probe.clone(), c.pattern.as_deref(), c.interleaver, nerr, 5, &[ebn0_db], None, 0).map_err(|e| e.to_string())?;
+            let b = BerTest::<Bpsk, _>::new(h.clone(), probe.clone(), c.pattern.as_deref(), c.interleaver, nerr, 5, &ebn0s_db, None, 0).map_err(|e| e.to_string())?;
             let sizes = (b.k(), b.n_cw(), b.n(), b.rate());
             Ok((b.run().map_err(|e| e.to_string())?, sizes))
         }
     };
-    let (stats, sizes) = guarded(run).map_err(|e| Fail::new("panic", format!("BER run panicked: {e} {ctx}")))?.map_err(|e| Fail::new("run-error", format!("BER run failed: {e} {ctx}")))?;
-    ensure!(sizes.0 == k && sizes.1 == n && sizes.2 == kept, "reported-sizes", "reported k = {}, N_cw = {}, N = {}; expected {k}, {n}, {kept} {ctx}", sizes.0, sizes.1, sizes.2);
-    ensure!((sizes.3 - rate).abs() <= 1e-15, "reported-rate", "reported rate {} but k/N after puncturing is {rate} {ctx}", sizes.3);
-    ensure!(stats.len() == 1, "stats", "one Eb/N0 point requested, {} statistics entries returned {ctx}", stats.len());
-    let frames = std::mem::take(&mut frames.lock().unwrap().1);
-    ensure!(!frames.is_empty(), "no-frames", "no frame reached the decoder {ctx}");
+    let (stats, sizes) = guarded(run).map_err(|e| Fail::new("panic", format!("BER run panicked: {e} {ctx0}")))?.map_err(|e| Fail::new("run-error", format!("BER run failed: {e} {ctx0}")))?;
+    ensure!(sizes.0 == k && sizes.1 == n && sizes.2 == kept, "reported-sizes", "reported k = {}, N_cw = {}, N = {}; expected {k}, {n}, {kept} {ctx0}", sizes.0, sizes.1, sizes.2);
+    ensure!((sizes.3 - rate).abs() <= 1e-15, "reported-rate", "reported rate {} but k/N after puncturing is {rate} {ctx0}", sizes.3);
+    ensure!(stats.len() == npts, "stats", "{npts} Eb/N0 point(s) requested, {} statistics entries returned {ctx0}", stats.len());
+    let st = std::mem::take(&mut *frames.lock().unwrap());
+    // every frame the engine decoded carried the LLR scale of one of the requested points
+    if let Some(f) = st.stray.first() {
+        return Err(Fail::new("llr-scale", format!("{} frame(s) reached the decoder with a mean |LLR| of {:.4e}, more than a factor 2 away from the scale of every requested Eb/N0 point ({:.4?}) {ctx0}", st.stray_seen, llr_scale(f), st.expected)));
+    }
+    for i in 0..npts {
+        ensure!(st.seen[i] >= stats[i].num_frames.min(1), "no-frames", "the statistics report {} frames for Eb/N0 {} dB but no frame with the LLR scale of that point (mean |LLR| ~ {:.4e}) reached the decoder (frames seen per point: {:?}) {ctx0}", stats[i].num_frames, ebn0s_db[i], st.expected[i], st.seen);
+    }
+    ensure!(st.seen.iter().sum::<u64>() > 0, "no-frames", "no frame reached the decoder {ctx0}");
     let punct: Vec<bool> = match &c.pattern {
         None => vec![false; n],
         Some(pt) => {
@@ -289,7 +374,7 @@ pub fn check(c: &Case, p: &mut Probe) -> Check {
     // (C15) and is not observable at the decoder; for 8PSK the symbol grouping is therefore
     // taken from the data: if the requested direction does not group the first frame into
     // invertible LLR triples, the opposite direction is tried before anything is judged.
-    if let (true, Some(cols), Some(f0)) = (c.psk8, c.interleaver, frames.first()) {
+    if let (true, Some(cols), Some(f0)) = (c.psk8, c.interleaver, st.kept.iter().find_map(|v| v.first())) {
         let ok = |order: &Vec<usize>| (0..kept / 3).filter(|&s| invert([f0[order[3 * s]], f0[order[3 * s + 1]], f0[order[3 * s + 2]]]).is_some()).count() * 10 >= (kept / 3) * 9;
         if f0.len() == n && !ok(&tx_to_cw) {
             let alt = order_for(-cols);
@@ -303,118 +388,118 @@ pub fn check(c: &Case, p: &mut Probe) -> Check {
     let tail = hb.submatrix_cols(k, n);
     let info_punctured = punct[..k].iter().any(|&b| b);
     let unknown: Vec<usize> = (0..n).filter(|&i| punct[i]).collect();
-    let (mut sw, mut sw2) = ([0.0f64; 2], [0.0f64; 2]);
-    let (mut sws, mut cross, mut lag) = (0.0f64, 0.0f64, 0.0f64);
-    let mut prev: Option<f64> = None;
-    let mut cnt = 0usize;
-    let mut nonconv = 0usize;
-    for f in frames.iter() {
-        ensure!(f.len() == n, "frame-length", "decoder received {} LLRs, codeword length is {n} {ctx}", f.len());
-        for i in 0..n {
-            if punct[i] {
-                ensure!(f[i].to_bits() == 0, "punctured-not-zero", "LLR at punctured position {i} is {:?}, not exactly +0.0 {ctx}", f[i]);
-            } else {
-                ensure!(f[i].is_finite() && f[i] != 0.0, "unpunctured-degenerate", "LLR at transmitted position {i} is {:?} {ctx}", f[i]);
-            }
-        }
-        let bits: Vec<u8> = f.iter().map(|&x| u8::from(x <= 0.0)).collect();
-        if !info_punctured {
-            // the signs of the transmitted positions are those of the systematic codeword of the first k bits
-            let mut rhs = vec![0u8; r];
-            for &(i, j) in &c.h.set() {
-                if j < k {
-                    rhs[i] ^= bits[j];
-                }
-            }
-            let parity = tail.solve(&rhs).ok_or_else(|| Fail::new("harness", "tail not invertible".to_string()))?;
-            for j in 0..r {
-                if !punct[k + j] {
-                    ensure!(bits[k + j] == parity[j], "not-systematic-codeword", "frame signs are not the systematic codeword of their first k bits: parity position {} has sign bit {} but the encoder gives {} {ctx}", k + j, bits[k + j], parity[j]);
-                }
-            }
-        } else {
-            // own GF(2) solve for the punctured unknowns
-            let mut a = BitMat::zero(r, unknown.len());
-            let mut rhs = vec![0u8; r];
-            for &(i, j) in &c.h.set() {
-                match unknown.iter().position(|&u| u == j) {
-                    Some(q) => a.flip(i, q),
-                    None => rhs[i] ^= bits[j],
-                }
-            }
-            ensure!(a.solve(&rhs).is_some(), "not-a-codeword", "the signs of the transmitted positions do not extend to any codeword of H {ctx}");
-        }
-        // noise recovery in transmitted order
-        if c.psk8 {
-            for s in 0..kept / 3 {
-                let l = [f[tx_to_cw[3 * s]], f[tx_to_cw[3 * s + 1]], f[tx_to_cw[3 * s + 2]]];
-                let Some(z) = invert(l) else {
-                    nonconv += 1;
-                    // LLR triples that are not the LLRs of any received sample: the frame is not in
-                    // transmitted symbol order (fail fast, the inversion of garbage is slow)
-                    ensure!(nonconv < 30, "inversion", "{nonconv} 8PSK LLR triples (of {} examined) are not the LLRs of any received sample: frames are not grouped in transmitted symbol order {ctx}", cnt + nonconv);
-                    continue;
-                };
-                let y = (z.0 * sigma_e * sigma_e, z.1 * sigma_e * sigma_e);
-                let b = [u8::from(l[0] <= 0.0), u8::from(l[1] <= 0.0), u8::from(l[2] <= 0.0)];
-                let a = TABLE.iter().find(|t| t.0 == b).unwrap().1;
-                let w = [y.0 - a.cos(), y.1 - a.sin()];
-                sw[0] += w[0];
-                sw[1] += w[1];
-                sw2[0] += w[0] * w[0];
-                sw2[1] += w[1] * w[1];
-                sws += w[0] * a.cos() + w[1] * a.sin();
-                cross += w[0] * w[1];
-                if let Some(pv) = prev {
-                    lag += pv * w[0];
-                }
-                prev = Some(w[1]);
-                cnt += 1;
-            }
-        } else {
-            for t in 0..kept {
-                let l = f[tx_to_cw[t]];
-                let y = -l / 2.0 * sigma_e * sigma_e;
-                let s = if l <= 0.0 { 1.0 } else { -1.0 };
-                let w = y - s;
-                sw[0] += w;
-                sw2[0] += w * w;
-                sws += w * s;
-                if let Some(pv) = prev {
-                    lag += pv * w;
-                }
-                prev = Some(w);
-                cnt += 1;
-            }
-        }
-    }
-    // independent noise between frames and between workers: no two recorded frames may be
-    // bit-identical (a shared or re-seeded generator would repeat whole frames)
-    {
-        let mut seen = std::collections::HashSet::new();
+    let mut seen_frames = std::collections::HashSet::new();
+    for (pt, frames) in st.kept.iter().enumerate() {
+        let sigma_e = sigmas[pt];
+        let ctx = format!("[point {pt}: Eb/N0 {} dB, expected sigma {sigma_e:.4}] {ctx0}", ebn0s_db[pt]);
+        let (mut sw, mut sw2) = ([0.0f64; 2], [0.0f64; 2]);
+        let (mut sws, mut cross, mut lag) = (0.0f64, 0.0f64, 0.0f64);
+        let mut prev: Option<f64> = None;
+        let mut cnt = 0usize;
+        let mut nonconv = 0usize;
         for f in frames.iter() {
+            ensure!(f.len() == n, "frame-length", "decoder received {} LLRs, codeword length is {n} {ctx}", f.len());
+            for i in 0..n {
+                if punct[i] {
+                    ensure!(f[i].to_bits() == 0, "punctured-not-zero", "LLR at punctured position {i} is {:?}, not exactly +0.0 {ctx}", f[i]);
+                } else {
+                    ensure!(f[i].is_finite() && f[i] != 0.0, "unpunctured-degenerate", "LLR at transmitted position {i} is {:?} {ctx}", f[i]);
+                }
+            }
+            let bits: Vec<u8> = f.iter().map(|&x| u8::from(x <= 0.0)).collect();
+            if !info_punctured {
+                // the signs of the transmitted positions are those of the systematic codeword of the first k bits
+                let mut rhs = vec![0u8; r];
+                for &(i, j) in &c.h.set() {
+                    if j < k {
+                        rhs[i] ^= bits[j];
+                    }
+                }
+                let parity = tail.solve(&rhs).ok_or_else(|| Fail::new("harness", "tail not invertible".to_string()))?;
+                for j in 0..r {
+                    if !punct[k + j] {
+                        ensure!(bits[k + j] == parity[j], "not-systematic-codeword", "frame signs are not the systematic codeword of their first k bits: parity position {} has sign bit {} but the encoder gives {} {ctx}", k + j, bits[k + j], parity[j]);
+                    }
+                }
+            } else {
+                // own GF(2) solve for the punctured unknowns
+                let mut a = BitMat::zero(r, unknown.len());
+                let mut rhs = vec![0u8; r];
+                for &(i, j) in &c.h.set() {
+                    match unknown.iter().position(|&u| u == j) {
+                        Some(q) => a.flip(i, q),
+                        None => rhs[i] ^= bits[j],
+                    }
+                }
+                ensure!(a.solve(&rhs).is_some(), "not-a-codeword", "the signs of the transmitted positions do not extend to any codeword of H {ctx}");
+            }
+            // noise recovery in transmitted order
+            if c.psk8 {
+                for s in 0..kept / 3 {
+                    let l = [f[tx_to_cw[3 * s]], f[tx_to_cw[3 * s + 1]], f[tx_to_cw[3 * s + 2]]];
+                    let Some(z) = invert(l) else {
+                        nonconv += 1;
+                        // LLR triples that are not the LLRs of any received sample: the frame is not in
+                        // transmitted symbol order (fail fast, the inversion of garbage is slow)
+                        ensure!(nonconv < 30, "inversion", "{nonconv} 8PSK LLR triples (of {} examined) are not the LLRs of any received sample: frames are not grouped in transmitted symbol order {ctx}", cnt + nonconv);
+                        continue;
+                    };
+                    let y = (z.0 * sigma_e * sigma_e, z.1 * sigma_e * sigma_e);
+                    let b = [u8::from(l[0] <= 0.0), u8::from(l[1] <= 0.0), u8::from(l[2] <= 0.0)];
+                    let a = TABLE.iter().find(|t| t.0 == b).unwrap().1;
+                    let w = [y.0 - a.cos(), y.1 - a.sin()];
+                    sw[0] += w[0];
+                    sw[1] += w[1];
+                    sw2[0] += w[0] * w[0];
+                    sw2[1] += w[1] * w[1];
+                    sws += w[0] * a.cos() + w[1] * a.sin();
+                    cross += w[0] * w[1];
+                    if let Some(pv) = prev {
+                        lag += pv * w[0];
+                    }
+                    prev = Some(w[1]);
+                    cnt += 1;
+                }
+            } else {
+                for t in 0..kept {
+                    let l = f[tx_to_cw[t]];
+                    let y = -l / 2.0 * sigma_e * sigma_e;
+                    let s = if l <= 0.0 { 1.0 } else { -1.0 };
+                    let w = y - s;
+                    sw[0] += w;
+                    sw2[0] += w * w;
+                    sws += w * s;
+                    if let Some(pv) = prev {
+                        lag += pv * w;
+                    }
+                    prev = Some(w);
+                    cnt += 1;
+                }
+            }
+            // independent noise between frames, workers and points: no two recorded frames may be
+            // bit-identical (a shared or re-seeded generator would repeat whole frames)
             let key: Vec<u64> = f.iter().map(|x| x.to_bits()).collect();
-            ensure!(seen.insert(key), "repeated-frame", "two frames handed to the decoder are bit-identical: messages/noise are not drawn independently per frame and worker {ctx}");
+            ensure!(seen_frames.insert(key), "repeated-frame", "two frames handed to the decoder are bit-identical: messages/noise are not drawn independently per frame and worker {ctx}");
         }
-    }
-    p.metric("nonconverged_inversions", nonconv as f64);
-    ensure!(nonconv * 1000 <= cnt.max(1), "inversion", "{nonconv} of {cnt} 8PSK LLR triples could not be inverted to a received sample {ctx}");
-    p.inner += frames.len() as u64;
-    if cnt >= 5000 {
-        p.class("statistics-evaluated");
-        let nn = cnt as f64;
-        let dims = if c.psk8 { 2 } else { 1 };
-        for d in 0..dims {
-            zcheck("noise mean", sw[d] / nn, 0.0, sigma_e / nn.sqrt(), p, &ctx)?;
-            // Wilson-Hilferty normalisation of the chi-square statistic
-            let s = sw2[d] / (sigma_e * sigma_e);
-            let wh = ((s / nn).cbrt() - (1.0 - 2.0 / (9.0 * nn))) / (2.0 / (9.0 * nn)).sqrt();
-            zcheck("noise variance (Wilson-Hilferty z)", wh, 0.0, 1.0, p, &ctx)?;
-        }
-        zcheck("scale <w,s>", sws / nn, 0.0, sigma_e / nn.sqrt(), p, &ctx)?;
-        zcheck("lag-1 autocorrelation", lag / nn / (sigma_e * sigma_e), 0.0, 1.0 / nn.sqrt(), p, &ctx)?;
-        if c.psk8 {
-            zcheck("re/im correlation", cross / nn / (sigma_e * sigma_e), 0.0, 1.0 / nn.sqrt(), p, &ctx)?;
+        p.metric("nonconverged_inversions", nonconv as f64);
+        ensure!(nonconv * 1000 <= cnt.max(1), "inversion", "{nonconv} of {cnt} 8PSK LLR triples could not be inverted to a received sample {ctx}");
+        p.inner += frames.len() as u64;
+        if cnt >= 3500 {
+            p.class("statistics-evaluated");
+            let nn = cnt as f64;
+            let dims = if c.psk8 { 2 } else { 1 };
+            for d in 0..dims {
+                zcheck("noise mean", sw[d] / nn, 0.0, sigma_e / nn.sqrt(), p, &ctx)?;
+                // Wilson-Hilferty normalisation of the chi-square statistic
+                let s = sw2[d] / (sigma_e * sigma_e);
+                let wh = ((s / nn).cbrt() - (1.0 - 2.0 / (9.0 * nn))) / (2.0 / (9.0 * nn)).sqrt();
+                zcheck("noise variance (Wilson-Hilferty z)", wh, 0.0, 1.0, p, &ctx)?;
+            }
+            zcheck("scale <w,s>", sws / nn, 0.0, sigma_e / nn.sqrt(), p, &ctx)?;
+            zcheck("lag-1 autocorrelation", lag / nn / (sigma_e * sigma_e), 0.0, 1.0 / nn.sqrt(), p, &ctx)?;
+            if c.psk8 {
+                zcheck("re/im correlation", cross / nn / (sigma_e * sigma_e), 0.0, 1.0 / nn.sqrt(), p, &ctx)?;
+            }
         }
     }
     let has_p = c.pattern.as_ref().is_some_and(|v| v.iter().any(|&b| !b));
@@ -423,6 +508,7 @@ pub fn check(c: &Case, p: &mut Probe) -> Check {
     p.class_if(c.psk8, "8PSK");
     p.class_if(c.interleaver.is_some_and(|x| x < 0), "backward-interleaver");
     p.class_if(info_punctured, "information-block-punctured");
+    p.class_if(npts >= 2, "several-ebn0-points");
     if (has_p && has_i) || (c.psk8 && (has_p || has_i)) {
         p.nontrivial();
     }
@@ -434,11 +520,11 @@ pub fn property() -> Property {
         id: "C12",
         subs: vec![Box::new(Sub {
             name: "llr-frames",
-            rule: "configurations: systematic H by construction ([H0 | staircase] or [H0 | unit lower triangular], 2 <= r <= 12, n = p x bs with pattern length p in 1..=12 and bs a multiple of 3), puncturing pattern none / AR4JA-like 1,1,1,1,0 / random with >= 1 true (may puncture information blocks), interleaver none or +-c with c a divisor of the transmitted length, BPSK or 8PSK, Eb/N0 chosen for an expected sigma of 0.08-0.13 (BPSK) or 0.025-0.048 (8PSK), through BerTest::new or BerTestBuilder; a probe DecoderFactory records every LLR vector and answers Err with one systematic bit flipped. Oracles per frame: length n; punctured positions bit-exactly +0.0, all others finite and non-zero; signs equal the own systematic re-encoding of the first k sign bits (or, when information blocks are punctured, extend to a codeword by an own GF(2) solve); reported k, N_cw, N, rate. no two recorded frames bit-identical (independence across frames and workers). Noise: received samples recovered from the LLRs (BPSK exactly, 8PSK by Gauss-Newton inversion of the own exact LLR function) with the expected sigma computed from (k, N after puncturing, bits per symbol, Eb/N0); mean, variance (Wilson-Hilferty), <w,s> scale statistic, lag-1 and re/im correlation within +-7 sigma once >= 5000 samples were collected. Non-trivial = puncturing and interleaving both present, or 8PSK with either; inner = frames examined",
+            rule: "configurations: systematic H by construction ([H0 | staircase] or [H0 | unit lower triangular], 2 <= r <= 12, n = p x bs with pattern length p in 1..=12 and bs a multiple of 3), puncturing pattern none / AR4JA-like 1,1,1,1,0 / random with >= 1 true (may puncture information blocks), interleaver none or +-c with c a divisor of the transmitted length, BPSK or 8PSK, Eb/N0 chosen for an expected sigma of 0.08-0.13 (BPSK) or 0.025-0.048 (8PSK); one Eb/N0 point, or two or three in any order whose sigmas halve from level to level (frames are attributed to a point by their mean |LLR|, which differs by a factor >= 4 between points; a frame more than a factor 2 away from every point's scale, or a point whose statistics report frames although none of its scale reached the decoder, is a violation), through BerTest::new or BerTestBuilder; a probe DecoderFactory records every LLR vector and answers Err with one systematic bit flipped. Oracles per frame: length n; punctured positions bit-exactly +0.0, all others finite and non-zero; signs equal the own systematic re-encoding of the first k sign bits (or, when information blocks are punctured, extend to a codeword by an own GF(2) solve); reported k, N_cw, N, rate. no two recorded frames bit-identical (independence across frames and workers). Noise: received samples recovered from the LLRs (BPSK exactly, 8PSK by Gauss-Newton inversion of the own exact LLR function) with the expected sigma computed from (k, N after puncturing, bits per symbol, Eb/N0); mean, variance (Wilson-Hilferty), <w,s> scale statistic, lag-1 and re/im correlation within +-7 sigma, per Eb/N0 point, once >= 3500 samples were collected for it. Non-trivial = puncturing and interleaving both present, or 8PSK with either; inner = frames examined",
             cases: |t| t.pick(500, 20_000),
             strategy,
             check,
-            health: &[("puncturing+interleaving", 0.25), ("8PSK", 0.40), ("backward-interleaver", 0.20)],
+            health: &[("puncturing+interleaving", 0.25), ("8PSK", 0.40), ("backward-interleaver", 0.20), ("several-ebn0-points", 0.40)],
         })],
         assumptions: vec![
             "the BER engine draws messages and noise from rand::rng() (not seedable without a hook): structural verdicts do not depend on the draw; the statistical ones use +-7 sigma acceptance regions (per-test false-alarm probability < 3e-12 under the Gaussian approximation)".into(),
